@@ -67,6 +67,17 @@ def _shape(t):
     return str(t[0])
 
 
+def _coll(vs, mode):
+    """the constructors take any iterable of variables: lists, tuples, generators, iterators (consumed after one pass)"""
+    if mode == "tuple":
+        return tuple(vs)
+    if mode == "gen":
+        return (v for v in vs)
+    if mode == "iter":
+        return iter(list(vs))
+    return list(vs)
+
+
 def build(case):
     """Returns (model, xs, sem_cons).  Raises Unsupported when the public operators reject the expression."""
     from solvor.cp import Model
@@ -75,6 +86,7 @@ def build(case):
     for name, lb, ub in case["vars"]:
         xs.append(m.int_var(lb, ub, name) if name is not None else m.int_var(lb, ub))
     sem = []
+    cm = case.get("coll", "list")
     for c in case["cons"]:
         k = c[0]
         try:
@@ -85,13 +97,13 @@ def build(case):
                     raise Unsupported("comparison did not build a constraint")
                 s = {"k": c[1], "l": _sem(c[2]), "r": _sem(c[3])}
             elif k == "all_different":
-                t = m.all_different([xs[i] for i in c[1]])
+                t = m.all_different(_coll([xs[i] for i in c[1]], cm))
                 s = {"k": k, "vs": [i + 1 for i in c[1]]}
             elif k in ("sum_eq", "sum_le", "sum_ge"):
-                t = getattr(m, k)([xs[i] for i in c[1]], c[2])
+                t = getattr(m, k)(_coll([xs[i] for i in c[1]], cm), c[2])
                 s = {"k": k, "vs": [i + 1 for i in c[1]], "c": c[2]}
             elif k == "circuit":
-                t = m.circuit([xs[i] for i in c[1]])
+                t = m.circuit(_coll([xs[i] for i in c[1]], cm))
                 s = {"k": k, "vs": [i + 1 for i in c[1]]}
             elif k == "no_overlap":
                 t = m.no_overlap([xs[i] for i in c[1]], c[2])
@@ -223,7 +235,7 @@ def run_enc_history(case):
     """C06 over call histories of one Model object: build the base model, really solve it with the SAT path (the encoder
     registers auxiliary variables in the model and draws booleans), THEN declare further variables / constraints on the
     same object, and capture the CNF of the next encoding.  The semantic record is the complete (extended) model."""
-    base = {"vars": case["vars"][: case["nbase"]], "cons": [c for c in case["cons"][: case["cbase"]]], "solves": []}
+    base = {"vars": case["vars"][: case["nbase"]], "cons": [c for c in case["cons"][: case["cbase"]]], "solves": [], "coll": case.get("coll", "list")}
     try:
         m, xs, sem = build(base)
     except Unsupported:
@@ -239,7 +251,7 @@ def run_enc_history(case):
         for name, lb, ub in case["vars"][case["nbase"]:]:
             xs.append(m.int_var(lb, ub, name) if name is not None else m.int_var(lb, ub))
         _, _, semfull = build({"vars": case["vars"], "cons": case["cons"], "solves": []})
-        for t in _constraints_on(m, xs, case["cons"][case["cbase"]:]):
+        for t in _constraints_on(m, xs, case["cons"][case["cbase"]:], case.get("coll", "list")):
             m.add(t)
     except Unsupported:
         return {"unsupported": True}
@@ -252,7 +264,7 @@ def run_solve_history(case):
     """C05 over call histories of one Model object: build the base model, solve it under every configuration (the encoder adds
     auxiliary variables to the model as a side effect), THEN declare further variables / constraints on the same object and
     solve again.  The trace describes the extended model; the events are the solves after the extension."""
-    base = {"vars": case["vars"][: case["nbase"]], "cons": [c for c in case["cons"][: case["cbase"]]], "solves": case["solves"]}
+    base = {"vars": case["vars"][: case["nbase"]], "cons": [c for c in case["cons"][: case["cbase"]]], "solves": case["solves"], "coll": case.get("coll", "list")}
     try:
         m, xs, sem = build(base)
     except Unsupported:
@@ -269,7 +281,7 @@ def run_solve_history(case):
         # add the remaining constraints to the live object through the public operators
         tmp = {"vars": case["vars"], "cons": case["cons"][case["cbase"]:], "solves": []}
         from solvor.cp import Model as _M  # noqa: F401
-        live_cons = _constraints_on(m, xs, tmp["cons"])
+        live_cons = _constraints_on(m, xs, tmp["cons"], case.get("coll", "list"))
         for t in live_cons:
             m.add(t)
     except Unsupported:
@@ -281,7 +293,7 @@ def run_solve_history(case):
     return tr
 
 
-def _constraints_on(m, xs, cons):
+def _constraints_on(m, xs, cons, cm="list"):
     out = []
     for c in cons:
         k = c[0]
@@ -292,11 +304,11 @@ def _constraints_on(m, xs, cons):
                 if not isinstance(t, tuple):
                     raise Unsupported("comparison did not build a constraint")
             elif k == "all_different":
-                t = m.all_different([xs[i] for i in c[1]])
+                t = m.all_different(_coll([xs[i] for i in c[1]], cm))
             elif k in ("sum_eq", "sum_le", "sum_ge"):
-                t = getattr(m, k)([xs[i] for i in c[1]], c[2])
+                t = getattr(m, k)(_coll([xs[i] for i in c[1]], cm), c[2])
             elif k == "circuit":
-                t = m.circuit([xs[i] for i in c[1]])
+                t = m.circuit(_coll([xs[i] for i in c[1]], cm))
             elif k == "no_overlap":
                 t = m.no_overlap([xs[i] for i in c[1]], c[2])
             elif k == "cumulative":
@@ -488,7 +500,7 @@ def gen_case(rng, circuit_friendly=False):
             h = {n: (v if lb <= v <= ub else h[n]) for n, lb, ub in named}       # all equal where possible
         for sv in ("auto", "dfs", "sat"):
             solves.append({"solver": sv, "limit": rng.choice([1, 3]), "hints": h})
-    return {"vars": vars_, "cons": cons, "solves": solves}
+    return {"vars": vars_, "cons": cons, "solves": solves, "coll": rng.choice(["list", "list", "tuple", "gen", "iter"])}
 
 
 def gen_cumulative_wide(rng):
